@@ -35,6 +35,9 @@ def cases(tier, seed):
     # histories on one instance: fit with range A, set_params(ngram_range=B), fit again -> must equal scikit-learn with B
     for a in RANGES:
         yield {"hist": True, "first_range": list(a)}
+    # long documents (thousands of tokens; token-buffer / block sizes), with n-gram ranges spanning 2 to 5 lengths
+    for N in (300, 4097, 4099, 9001) + ((20001, 70001) if tier == "thorough" else ()):
+        yield {"long": N, "first": [], "second": ["the aab aa", ""], "opts": "long"}
     if tier == "quick":
         for d1 in docs:
             for d2 in docs:
@@ -59,6 +62,9 @@ MENU = [(1, 1.0, None, False), (2, 1.0, None, False), (1, 0.5, None, False), (1,
 
 def _opts(mode="full"):
     global OPTS
+    if mode == "long":
+        return [dict(ngram_range=ng, stop_words=sw, lowercase=True, min_df=1, max_df=1.0, max_features=None, binary=b)
+                for ng in ((1, 1), (1, 3), (2, 4), (3, 3), (1, 5)) for sw in (None, ["aab"]) for b in (False, True)]
     if mode == "menu":
         return [o for o in _opts("full") if (o["min_df"], o["max_df"], o["max_features"], o["binary"]) in MENU]
     if OPTS is None:
@@ -135,6 +141,9 @@ def run_case(case):
             sigs.add(sig)
             viol.append({"sig": sig, "msg": msg})
 
+    if "long" in case:
+        words = ["aa", "aab", "the", "The", "omega", "is", "b"]
+        case = dict(case, first=[" ".join(words[(i * i + 3 * i) % 7] for i in range(case["long"]))])
     docs = case["second"]
     opts = _opts(case["opts"])
     probe = ["aa aab the The aa", "", "the aab aab"]
@@ -147,7 +156,7 @@ def run_case(case):
                 sw = o["stop_words"]
                 cond = "%s,stop_words=%s,ngram_max=%d" % (nm, "none" if sw is None else ("list" if isinstance(sw, list) else sw),
                                                           o["ngram_range"][1])
-                desc = "corpus=%r options=%r" % (corpus, o)
+                desc = "corpus=%r options=%r" % (corpus if "long" not in case else ["<%d tokens cycling over 7 words>" % case["long"]] + corpus[1:], o)
                 try:
                     ref = Ref(**o)
                     Mr = ref.fit_transform(corpus)
@@ -173,7 +182,7 @@ def run_case(case):
                     ntriv += 1
                 A, B = Mt.toarray(), Mr.toarray()
                 if A.shape != B.shape or (numpy.abs(A - B).max() > (0 if nm == "count" else 1e-12) if A.size else False):
-                    bad("document-term matrix differs", cond, "ours=%r sklearn=%r %s" % (A.tolist(), B.tolist(), desc))
+                    bad("document-term matrix differs", cond, "ours=%r sklearn=%r %s" % (A.tolist()[:2] if A.size < 200 else "...", B.tolist()[:2] if B.size < 200 else "...", desc))
                     continue
                 voc = tr.vocabulary_
                 okv = all(isinstance(k, tuple) and all(isinstance(t, str) for t in k) for k in voc)
@@ -190,4 +199,4 @@ def run_case(case):
                         bad("transform of new documents differs", cond, desc)
                 except Exception as e:
                     bad("transform raises %s" % type(e).__name__, cond, "%s %s" % (str(e)[:120], desc))
-    return {"viol": viol, "nontrivial": ntriv > 0, "states": cnt, "transitions": cnt * 2, "outcome": len(case["first"][0])}
+    return {"viol": viol, "nontrivial": ntriv > 0, "states": cnt, "transitions": cnt * 2, "outcome": len(case["first"][0]) if "long" not in case else ("long", case["long"])}
